@@ -50,6 +50,8 @@ def cube(times, seed):
     a[rs.rand(2, 2, T) < 0.12] = 0
     if T > 3:
         a[0, 1, rs.randint(0, T)] = ND
+    if T > 5:      # gaps before, inside and after any calibration window
+        a[rs.rand(2, 2, T) < 0.1] = ND
     da = xr.DataArray(a, dims=("y", "x", "time"), coords={"time": [stamp(t) for t in times]}, attrs={"nodata": ND})
     return da.transpose(*[("y", "x", "time"), ("time", "y", "x"), ("y", "time", "x")][seed % 3])
 
@@ -128,7 +130,14 @@ def execute(c):
             for sp in {max(0, j0 - 1), j0, min(len(times), j0 + 1)}:
                 if sp - st >= 1:
                     out = gammastd_yxt(x, ND, st, sp)
-                    c["cands"].append({"start": st, "stop": sp, "out": [[int(v) for v in out[i, j]] for i in range(2) for j in range(2)]})
+                    # the same window expressed differently: the index of a cell depends on the fitted sample, the share of
+                    # zeros and the cell's value, not on where the steps sit - move the window's steps to the front and fit [0, sp-st)
+                    perm = list(range(st, sp)) + list(range(0, st)) + list(range(sp, len(times)))
+                    outp = gammastd_yxt(np.ascontiguousarray(x[:, :, perm]), ND, 0, sp - st)
+                    alt = np.empty_like(outp)
+                    alt[:, :, perm] = outp
+                    c["cands"].append({"start": st, "stop": sp, "out": [[int(v) for v in out[i, j]] for i in range(2) for j in range(2)],
+                                       "alt": [[int(v) for v in alt[i, j]] for i in range(2) for j in range(2)]})
     else:
         for g in sorted(set(groups)):
             pos = [i for i, gg in enumerate(groups) if gg == g]
